@@ -739,7 +739,15 @@ impl CliOptions for GetOptsOptions {
             config.set_cli().print_misformatted_file_names(true);
         }
 
-        for (key, val) in self.inline_config {
+        // The order in which the pairs are applied must not be the iteration order of the map:
+        // a width is clamped against the `max_width` in force when it is set, so that goes first.
+        let mut inline_config: Vec<_> = self.inline_config.into_iter().collect();
+        inline_config.sort_by(|(a, _), (b, _)| {
+            (a != "max_width")
+                .cmp(&(b != "max_width"))
+                .then_with(|| a.cmp(b))
+        });
+        for (key, val) in inline_config {
             config.override_value(&key, &val);
         }
         // `--check` must stay read-only whatever `--config emit_mode=...` asks for.
